@@ -46,7 +46,11 @@ RULE = ("cases: (BAM written from known ReadSpecs) x locus x (read-group field, 
         "synthetic datasets with random feature subsets, hand-built boundary BAMs (flag combinations, MAPQ at threshold +-1, "
         "1..3 alignments per read name, fetch-window edges, I/D/N/S/H/=/X CIGARs), error streams (no RG / no MD / no qualities / "
         "reference mismatches), padding CIGARs. Non-trivial: an indel / clip / skip op inside the locus window AND a read name "
-        "with >= 2 passing alignments AND a fetched record removed by the filters. Distinct by canonical request line.")
+        "with >= 2 passing alignments AND a fetched record removed by the filters. Distinct by canonical request line. "
+        "WP3 streams (harness/wp3_c06.py): sample / read-group / read names that are substrings of each other, >= 3 alignments per "
+        "name with phred scores; data sets through the real assemble / call-exact parsers with --bam as paths / list file / "
+        "sample-path pairs, CRAM, soft-masked FASTA, BED gzipped / with '#' lines / 3 columns, --variants with split multi-allelic "
+        "sites, indel / MNP / ALT-less records and a deletion starting before the window, extraction through a LocusPrior.")
 
 UNMAPPED, SECONDARY, QCFAIL, DUP, SUPP = 0x4, 0x100, 0x200, 0x400, 0x800
 
